@@ -553,3 +553,68 @@ pub async fn wait_until(
         let _ = tokio::time::timeout(left.min(Duration::from_millis(50)), n).await;
     }
 }
+
+// ---------------------------------------------------------------------------------------
+// conservative reconstruction of "which connection can have been the active one"
+
+/// Life span of one registered connection on the global logical clock.
+#[derive(Clone, Copy, Debug)]
+pub struct Life {
+    /// index of the endpoint id the connection belongs to
+    pub id: usize,
+    /// stamps taken immediately before / after `Clients::register`
+    pub reg_call: u64,
+    pub reg_ret: u64,
+    /// earliest instant at which the connection may have left the registry (stamp taken
+    /// before the first termination cause was issued; the registration stamp if it went
+    /// away without a known cause; `u64::MAX` if nothing ever ended it)
+    pub may_leave: u64,
+    /// stamp of the actor going away (it has unregistered by then); `u64::MAX` = alive
+    pub gone: u64,
+}
+
+/// Could connection `c` have been the active (newest registered, not yet unregistered)
+/// connection of its id at some instant in `[t1, t2]`?  Errs on the side of "yes".
+pub fn possibly_active(lives: &[Life], c: usize, t1: u64, t2: u64) -> bool {
+    let me = &lives[c];
+    let lo = t1.max(me.reg_call);
+    let hi = t2.min(me.gone);
+    if lo > hi {
+        return false;
+    }
+    // intervals [a, b) during which a newer connection of the same id is certainly registered
+    let blocks: Vec<(u64, u64)> = lives
+        .iter()
+        .enumerate()
+        .filter(|(j, o)| *j != c && o.id == me.id && o.reg_call > me.reg_call && o.reg_ret < o.may_leave)
+        .map(|(_, o)| (o.reg_ret, o.may_leave))
+        .collect();
+    let covered = |t: u64| blocks.iter().any(|(a, b)| *a <= t && t < *b);
+    if !covered(lo) {
+        return true;
+    }
+    blocks.iter().any(|(_, b)| *b >= lo && *b <= hi && !covered(*b))
+}
+
+/// Is some connection of id `id` certainly registered at instant `t`?
+pub fn certainly_connected(lives: &[Life], id: usize, t: u64) -> bool {
+    lives.iter().any(|o| o.id == id && o.reg_ret <= t && t < o.may_leave)
+}
+
+/// Can id `id` have been without any registered connection at some instant in `[t1, t2]`?
+/// Errs on the side of "yes".
+pub fn possibly_absent(lives: &[Life], id: usize, t1: u64, t2: u64) -> bool {
+    if t1 > t2 {
+        return false;
+    }
+    let blocks: Vec<(u64, u64)> = lives
+        .iter()
+        .filter(|o| o.id == id && o.reg_ret < o.may_leave)
+        .map(|o| (o.reg_ret, o.may_leave))
+        .collect();
+    let covered = |t: u64| blocks.iter().any(|(a, b)| *a <= t && t < *b);
+    if !covered(t1) {
+        return true;
+    }
+    blocks.iter().any(|(_, b)| *b >= t1 && *b <= t2 && !covered(*b))
+}
